@@ -55,7 +55,7 @@ fn real_main() -> i32 {
             }
         };
         return match (prop.replay)(&case) {
-            Err(v) if v.message.starts_with("SKIP:") => {
+            Err(v) if v.message.starts_with("SKIP:") || is_timeout(&v.message) => {
                 println!("replay declined ({}): property={} case={}", v.message, id, path.display());
                 0
             }
@@ -104,7 +104,7 @@ fn real_main() -> i32 {
         st.eval();
         st.class("regression-replay");
         if let Err(v) = (prop.replay)(&case) {
-            if v.message.starts_with("SKIP:") {
+            if v.message.starts_with("SKIP:") || is_timeout(&v.message) {
                 st.discarded += 1;
                 st.class(&v.message);
                 continue;
